@@ -1061,6 +1061,31 @@ impl VisitMut for Norm {
                     self.log("N8c-set-from_iter-array", sp);
                 }
             }
+            // N8g3: `*M.entry(K).or_insert_with(|| B)` (value read of the entry API; B may update other fields) =>
+            //       `{ let k = K; match M.get(&k) { Some(v) => *v, None => { let v = B; M.insert(k, v); v } } }` (definition; V: Copy)
+            Expr::Unary(u) if matches!(u.op, UnOp::Deref(_)) && matches!(&*u.expr, Expr::MethodCall(mc) if mc.method == "or_insert_with" && mc.args.len() == 1
+                && matches!(&mc.args[0], Expr::Closure(c) if c.inputs.is_empty() && !body_has_return(&c.body))
+                && matches!(&*mc.receiver, Expr::MethodCall(en) if en.method == "entry" && en.args.len() == 1)) => {
+                if let Expr::MethodCall(mc) = &*u.expr {
+                    if let (Expr::Closure(c), Expr::MethodCall(en)) = (&mc.args[0], &*mc.receiver) {
+                        let sp = mc.method.span();
+                        let m = &en.receiver;
+                        let k = &en.args[0];
+                        let b = &c.body;
+                        let kk = self.fresh("k");
+                        let vv = self.fresh("v");
+                        let ne: Expr = parse_quote!({
+                            let #kk = #k;
+                            match #m.get(&#kk) {
+                                Some(#vv) => *#vv,
+                                None => { let #vv = #b; #m.insert(#kk, #vv); #vv }
+                            }
+                        });
+                        *e = ne;
+                        self.log("N8g3-entry-or_insert_with-value", sp);
+                    }
+                }
+            }
             Expr::Call(c) if !self.rename_calls.is_empty() => {
                 if let Expr::Path(p) = &mut *c.func {
                     if let Some(last) = p.path.segments.last_mut() {
